@@ -9,10 +9,10 @@ open Bufr.Spec
 /-- a fresh coder state: nothing recorded, default registers -/
 theorem Core.init (V : St → List Val) (s : St) (hd : s.descs = []) (hl : s.links = []) (hr : s.regs = {})
     (hv : V s = []) : Core V s [] := by
-  have hi : items V s = [] := by unfold items; rw [hd, hv]; rfl
-  have hf : foldItems [] (items V s) = {} := by rw [hi]; rfl
+  have hi_items : items V s = [] := by unfold items; rw [hd, hv]; rfl
+  have hf : foldItems [] (items V s) = {} := by rw [hi_items]; rfl
   refine ⟨by rw [hv, hd]; rfl, by rw [hf, hl], by rw [hf, hr], by rw [hr]; exact ⟨rfl, rfl, rfl⟩,
-    (fun _ h => nomatch h), ?_, ?_⟩
+    (fun _ h => nomatch h), ?_, ?_, ?_⟩
   · rw [hf]
     unfold PhaseRel
     rw [hr]
@@ -26,6 +26,9 @@ theorem Core.init (V : St → List Val) (s : St) (hd : s.descs = []) (hl : s.lin
     · unfold estV
       rw [hvw]; rfl
     · rw [hvw, hr]; rfl
+  · intro i hi
+    rw [hi_items] at hi
+    cases hi
 
 /-- THE walk theorem: for recording primitives and a template that satisfies `WFlinks`, from a fresh state,
     the links recorded are `Spec.links` of the items recorded — with the times at which the run processed
@@ -34,13 +37,13 @@ theorem walk_links_eq_spec {P : Prims} {V : St → List Val} {X : St → Prop} (
     (s0 s : St) (hd : s0.descs = []) (hl : s0.links = []) (hr : s0.regs = {}) (hv : V s0 = []) (hx : X s0)
     (h : walkList P t s0 = .ok s) (hok : markersOk (items V s) = true) :
     s.links.reverse = Spec.links (items V s) (cancelsL P t s0) ∧ (V s).length = s.descs.length ∧
-      s.vals.length = s0.vals.length := by
+      s.vals.length = s0.vals.length ∧ (∀ i, consumes (items V s) i = true → ∃ o, (i, o) ∈ s.links) := by
   have h0 : CorePhX V X .idle s0 [] :=
     ⟨⟨Core.init V s0 hd hl hr hv, by rw [hr]; exact fun x => nomatch x⟩, hx⟩
   have := presG_walkL hR t .idle hwf s0 s [] h hok h0
   rw [List.nil_append] at this
   have hg := grows_walkList hR t s0 s (by rw [hv, hd]; rfl) h
-  refine ⟨?_, this.1.1.len, hg.2.2.1⟩
+  refine ⟨?_, this.1.1.len, hg.2.2.1, this.1.1.complete⟩
   rw [this.1.1.links, linksFold_eq]
   rfl
 
